@@ -204,8 +204,8 @@ def parse_tv(ts):
 class Func:
     def __init__(self): self.name=None; self.ret=None; self.params=[]; self.va=False; self.blocks=[]; self.defined=False; self.attrs=set(); self.linkage=''
 class Inst:
-    __slots__=('op','res','ty','ops','x','c','h','dbg','lib','lk')
-    def __init__(self, op, res=None, ty=None, ops=None, x=None): self.op=op; self.res=res; self.ty=ty; self.ops=ops or []; self.x=x; self.c=None; self.h=None; self.dbg=None; self.lib=None; self.lk=None
+    __slots__=('op','res','ty','ops','x','c','h','dbg','lib','lk','sp')
+    def __init__(self, op, res=None, ty=None, ops=None, x=None): self.op=op; self.res=res; self.ty=ty; self.ops=ops or []; self.x=x; self.c=None; self.h=None; self.dbg=None; self.lib=None; self.lk=None; self.sp=False
 
 class Module:
     def __init__(self):
